@@ -642,6 +642,30 @@ def _d6_header_lines(ctx):
               'response the fields stay glued to the status line and the MIME column is lost', gh.loc(cuts[0]) if cuts else gh.loc())
     from .common import header_name_key_rule
     header_name_key_rule(ctx, 'C07-D6')
+    # the status line is read back through Response.parse_status_line into Response(version, status, reason), whose constructor
+    # wants all three: every capture group of the status-line pattern takes part in every match (an optional reason group gives
+    # None for `HTTP/1.1 200` and the read-back fails after the record was written, leaving it without a CDX line)
+    psl = repo.func('wpull.protocol.http.request:Response.parse_status_line')
+    n_sl = 0
+    for c in U.calls(psl.node):
+        got = RX.rx_from_method_call(repo, psl.module, c)
+        if got is None:
+            continue
+        n_sl += 1
+        opt = got[0].optional_groups()
+        # ... unless the function supplies a default wherever it reads such a group (`groups[2] or b''`)
+        pm_ = U.parents(psl.node)
+        for g_ in sorted(opt):
+            uses = [x for x in walk_no_nested(psl.node) if (isinstance(x, ast.Subscript) and isinstance(x.slice, ast.Constant) and x.slice.value == g_ - 1
+                                                           and isinstance(x.value, ast.Name) and 'group' in x.value.id)
+                    or (isinstance(x, ast.Call) and U.attr_name(x) == 'group' and x.args and isinstance(x.args[0], ast.Constant) and x.args[0].value == g_)]
+            if uses and all(isinstance(pm_.get(id(u)), ast.BoolOp) and isinstance(pm_[id(u)].op, ast.Or) and pm_[id(u)].values[0] is u for u in uses):
+                opt.discard(g_)
+        ck.expect(not opt, 'C07-D6', psl.qual, 'every group of the status-line pattern takes part in every match',
+                  'group(s) %s of the status-line pattern are optional: a status line without them yields None for a field the response '
+                  'object requires, and the CDX read-back of an archived record fails after the record was appended' % sorted(opt), psl.loc(c))
+    if n_sl < 1:
+        raise AnalysisError('parse_status_line: pattern not found')
     # unfolding
     uf = repo.func('wpull.namevalue:unfold_lines')
     cont = None
